@@ -112,6 +112,11 @@ Qed.
 Lemma btw_not_ends e k a u : k < 64 -> a < 64 -> ray_in 0 e k a = true -> In u (btw e k a) -> u <> k /\ u <> a.
 Proof. intros Hk Ha Hr Hu. destruct (btw_on_ray e k a u Hk Ha Hr Hu) as (_ & _ & A & B). now split. Qed.
 
+Lemma free_occ b u : u < 64 -> free (occ_of b) u = (at_ b u =? 0).
+Proof.
+  intros Hu. unfold free. rewrite occ_of_testbit. replace (u <? 64) with true by lia. cbn [andb]. apply negb_involutive.
+Qed.
+
 (* the board after a move that changes f and t only *)
 Section After.
 Variables (b b' : list N) (f t pc' : N).
@@ -120,17 +125,151 @@ Hypothesis Hpc' : pc' <> 0.
 
 Lemma free_after u : u < 64 -> free (occ_of b) u = true -> free (occ_of b') u = false -> u = t.
 Proof.
-  intros Hu H1 H2. unfold free in *. rewrite occ_of_testbit in H1, H2.
-  replace (u <? 64) with true in * by lia. cbn [andb] in *. rewrite negb_involutive in H1, H2.
-  rewrite Hat in H2. destruct (N.eqb_spec u t) as [E|E]; [exact E|].
-  destruct (u =? f); [discriminate|]. congruence.
+  intros Hu H1 H2. rewrite free_occ in H1, H2 by exact Hu. apply N.eqb_eq in H1. apply N.eqb_neq in H2.
+  rewrite Hat in H2. destruct (N.eqb_spec u t) as [E|E]; [exact E|exfalso].
+  destruct (u =? f); [now apply H2|]. now apply H2.
 Qed.
 
 Lemma free_kept u : u < 64 -> u <> t -> free (occ_of b) u = true -> free (occ_of b') u = true.
 Proof.
-  intros Hu Hne H1. unfold free in *. rewrite occ_of_testbit in *.
-  replace (u <? 64) with true in * by lia. cbn [andb] in *. rewrite negb_involutive in *.
-  rewrite Hat. replace (u =? t) with false by lia. destruct (u =? f); [reflexivity|exact H1].
+  intros Hu Hne H1. rewrite free_occ in * by exact Hu. apply N.eqb_eq in H1. apply N.eqb_eq.
+  rewrite Hat. destruct (N.eqb_spec u t) as [E|E]; [contradiction|]. destruct (u =? f); [reflexivity|exact H1].
+Qed.
+
+Lemma ray_blocked e k a : ray_in (occ_of b) e k a = true -> ray_in (occ_of b') e k a = false ->
+  ray_in 0 e k a = true /\ forallb (free (occ_of b)) (btw e k a) = true /\ In t (btw e k a).
+Proof.
+  intros Hr Hr'. rewrite ray_in_char in Hr, Hr'. apply andb_true_iff in Hr as [R0 Rf]. rewrite R0 in Hr'. cbn [andb] in Hr'.
+  split; [exact R0|]. split; [exact Rf|].
+  assert (G : exists u, In u (btw e k a) /\ free (occ_of b') u = false).
+  { clear - Hr'. induction (btw e k a) as [|x l IH]; cbn [forallb] in Hr'; [discriminate|].
+    destruct (free (occ_of b') x) eqn:X.
+    - cbn [andb] in Hr'. destruct (IH Hr') as [u [Hu1 Hu2]]. exists u. split; [now right|exact Hu2].
+    - exists x. split; [now left|exact X]. }
+  destruct G as [u [Hu1 Hu2]]. rewrite forallb_forall in Rf. pose proof (Rf u Hu1) as Hu3.
+  pose proof (btw_lt _ _ _ _ Hu1) as Hu64. assert (E : u = t) by (now apply free_after). now rewrite <- E.
 Qed.
 
 End After.
+
+(** ** legal moves of a position in check *)
+Section Complete.
+Variable p : pos.
+Hypothesis Hlegal : legal_pos p = true.
+Hypothesis Hchk : in_check p = true.
+
+Local Notation b := (brd p).
+Local Notation c := (stm p).
+Local Notation ec := (flip (stm p)).
+Local Notation k := (king_sq (brd p) (stm p)).
+
+Lemma Cw : wfp p. Proof. now apply legal_wfp. Qed.
+Lemma Cc : c < 2. Proof. exact (wf_stm p Cw). Qed.
+Lemma Cec : ec < 2 /\ ec <> c. Proof. pose proof Cc. unfold flip. lia. Qed.
+Lemma Clen : length b = 64%nat. Proof. exact (wf_len p Cw). Qed.
+
+Lemma Cking : k < 64 /\ at_ b k = mk_piece c KING /\ (forall s, s < 64 -> at_ b s = mk_piece c KING -> s = k).
+Proof.
+  pose proof (legal_pos_facts p Hlegal) as L. destruct (lf_own_king p _ L) as [A B]. repeat split; try assumption.
+  exact (lf_own_uniq p _ L).
+Qed.
+
+Lemma Cattacked : attacked b k ec = true.
+Proof. exact Hchk. Qed.
+
+(* the shape of a move that is neither castling nor en passant *)
+Lemma simple_move_facts m : In m (pseudo p) -> mtype m <> CASTLING -> mtype m <> ENPASSANT ->
+  mfrom m < 64 /\ mto m < 64 /\ (mtype m = NORMAL \/ mtype m = PROMOTION) /\
+  at_ b (mfrom m) <> 0 /\ colour_of (at_ b (mfrom m)) = c /\
+  (at_ b (mto m) = 0 \/ (at_ b (mto m) <> 0 /\ colour_of (at_ b (mto m)) <> c)) /\
+  (mtype m = PROMOTION -> type_of (at_ b (mfrom m)) = PAWN /\ 3 <= mprom m <= 6).
+Proof.
+  intros Hm Hc He. destruct (pseudo_inv p m Hm) as [Hf Ht Hnz Hcol Hto Hty|E|kf kt rf bit em Hin E].
+  - split; [exact Hf|]. split; [exact Ht|]. split; [destruct Hty as [[E _]|[E _]]; auto|].
+    split; [exact Hnz|]. split; [exact Hcol|]. split; [destruct Hto as [H|(H1 & H2 & _)]; auto|].
+    intros E. destruct Hty as [[E' _]|(_ & A & B)]; [rewrite E in E'; discriminate|now split].
+  - contradiction.
+  - rewrite E in Hc. now contradiction Hc.
+Qed.
+
+(* the piece arriving on the to square *)
+Definition arriving (m : mv) : N :=
+  if mtype m =? PROMOTION then mk_piece c (mprom m) else at_ b (mfrom m).
+
+Lemma after_simple m : In m (pseudo p) -> mtype m <> CASTLING -> mtype m <> ENPASSANT ->
+  (forall a, at_ (brd (make p m)) a =
+             if a =? mto m then arriving m else if a =? mfrom m then 0 else at_ b a) /\
+  arriving m <> 0 /\ colour_of (arriving m) = c /\
+  (arriving m = mk_piece c KING -> type_of (at_ b (mfrom m)) = KING).
+Proof.
+  intros Hm Hc He. destruct (simple_move_facts m Hm Hc He) as (Hf & Ht & Hty & Hnz & Hcol & Hto & Hpr).
+  pose proof Cc as Hcc. split; [|split; [|split]].
+  - intros a. now apply at_make_simple; [apply Clen| | |].
+  - unfold arriving. destruct (N.eqb_spec (mtype m) PROMOTION) as [E|E]; [|exact Hnz].
+    destruct (Hpr E) as [_ B]. apply mkp_nz. clear - B. lia.
+  - unfold arriving. destruct (N.eqb_spec (mtype m) PROMOTION) as [E|E]; [|exact Hcol].
+    destruct (Hpr E) as [_ B]. apply mk_piece_colour. clear - B. lia.
+  - unfold arriving. destruct (N.eqb_spec (mtype m) PROMOTION) as [E|E].
+    + destruct (Hpr E) as [_ B]. intros X. apply mk_piece_inj in X; [|clear - B; lia|unfold KING; lia].
+      destruct X as [_ X]. clear - B X. unfold KING in X. lia.
+    + intros X. rewrite X. apply mk_piece_type. unfold KING. lia.
+Qed.
+
+(* the own king stays where it is when another piece moves *)
+Lemma king_stays m : In m (pseudo p) -> mtype m <> CASTLING -> mtype m <> ENPASSANT -> mover p m <> KING ->
+  king_sq (brd (make p m)) c = k /\ k <> mfrom m /\ k <> mto m.
+Proof.
+  intros Hm Hc He Hmv. destruct Cking as (K1 & K2 & K3).
+  destruct (simple_move_facts m Hm Hc He) as (Hf & Ht & Hty & Hnz & Hcol & Hto & Hpr).
+  destruct (after_simple m Hm Hc He) as (Hat & A1 & A2 & A3).
+  assert (Nf : k <> mfrom m).
+  { intros E. apply Hmv. unfold mover, piece_at. rewrite <- E, K2. apply mk_piece_type. unfold KING. lia. }
+  assert (Nt : k <> mto m).
+  { intros E. rewrite <- E, K2 in Hto. destruct Hto as [Hto|[_ Hto]].
+    - now apply mkp_king_nz in Hto.
+    - rewrite mkp_colour_king in Hto. now apply Hto. }
+  split; [|split; assumption].
+  apply king_sq_intro; [exact K1| |].
+  - rewrite Hat. replace (k =? mto m) with false by (symmetry; now apply N.eqb_neq).
+    replace (k =? mfrom m) with false by (symmetry; now apply N.eqb_neq). exact K2.
+  - intros s Hs E. rewrite Hat in E. destruct (N.eqb_spec s (mto m)) as [Es|Es].
+    + exfalso. apply Hmv. unfold mover, piece_at. now apply A3.
+    + destruct (N.eqb_spec s (mfrom m)) as [Es'|Es']; [symmetry in E; now apply mkp_king_nz in E|now apply K3].
+Qed.
+
+(* what a legal non-king move does to each checking piece *)
+Lemma legal_blocks m : In m (pseudo p) -> is_legal p m = true ->
+  mtype m <> CASTLING -> mtype m <> ENPASSANT -> mover p m <> KING ->
+  forall a, a < 64 -> att_from b k ec a = true ->
+  mto m = a \/
+  (slider (type_of (at_ b a)) /\
+   exists e, ray_in 0 e k a = true /\ forallb (free (occ_of b)) (btw e k a) = true /\ In (mto m) (btw e k a)).
+Proof.
+  intros Hm His Hc He Hmv a Ha Hatt. destruct Cking as (K1 & K2 & K3). destruct Cec as [E1 E2].
+  destruct (simple_move_facts m Hm Hc He) as (Hf & Ht & Hty & Hnz & Hcol & Hto & Hpr).
+  destruct (after_simple m Hm Hc He) as (Hat & A1 & A2 & A3).
+  destruct (king_stays m Hm Hc He Hmv) as (Hks & Nf & Nt).
+  destruct (N.eq_dec (mto m) a) as [Eta|Nta]; [now left|right].
+  pose proof (legal_king_safe p m His) as Hsafe. rewrite Hks in Hsafe.
+  pose proof (not_attacked_all _ k ec K1 E1 Hsafe a Ha) as Hna.
+  apply att_from_inv in Hatt as (ty & Hty' & Haty & Hcl).
+  assert (Naf : a <> mfrom m).
+  { intros E. rewrite E in Haty. rewrite Haty, mk_piece_colour in Hcol by (clear - Hty'; lia). now apply E2. }
+  assert (Haty' : at_ (brd (make p m)) a = mk_piece ec ty).
+  { rewrite Hat. replace (a =? mto m) with false by (symmetry; apply N.eqb_neq; congruence).
+    replace (a =? mfrom m) with false by (symmetry; now apply N.eqb_neq). exact Haty. }
+  rewrite (att_from_piece _ k ec a ty Haty') in Hna by (clear - Hty'; lia).
+  destruct (type_cases ty Hty') as [Hns|Hsl].
+  - rewrite (nonslider_clause (brd (make p m)) b k ec a ty Hns) in Hna. congruence.
+  - rewrite Haty, mk_piece_type by (clear - Hty'; lia). split; [exact Hsl|].
+    rewrite (slider_clause b k ec a ty Hsl K1 Ha) in Hcl.
+    rewrite (slider_clause (brd (make p m)) k ec a ty Hsl K1 Ha) in Hna.
+    unfold slide_in in Hcl, Hna. apply existsb_exists in Hcl as [e [He' Hr]].
+    assert (Hr' : ray_in (occ_of (brd (make p m))) e k a = false).
+    { destruct (ray_in (occ_of (brd (make p m))) e k a) eqn:X; [|reflexivity].
+      assert (Y : existsb (fun d => ray_in (occ_of (brd (make p m))) d k a) (dirs_of ty) = true)
+        by (apply existsb_exists; now exists e). congruence. }
+    exists e. exact (ray_blocked b (brd (make p m)) (mfrom m) (mto m) (arriving m) Hat e k a Hr Hr').
+Qed.
+
+End Complete.
